@@ -353,6 +353,29 @@ func init() {
 		natives["(*sync/atomic."+ty+").Add"] = typed(atomicAdd)
 		natives["(*sync/atomic."+ty+").CompareAndSwap"] = typed(atomicCAS)
 	}
+	boolField := func(p PtrV) PtrV {
+		_, pt := pathNames(p.Root, p.Path)
+		stt := pt.Underlying().(*types.Struct)
+		for i := 0; i < stt.NumFields(); i++ {
+			if stt.Field(i).Name() == "v" {
+				np := p
+				np.Path = append(append([]int(nil), p.Path...), i)
+				return np
+			}
+		}
+		unsup("atomic.Bool without field v")
+		return p
+	}
+	natives["(*sync/atomic.Bool).Load"] = func(br *bodyRun, st *State, fn *ssa.Function, av []ssa.Value, args []Val, rt types.Type, x ssa.CallInstruction) Val {
+		p := boolField(args[0].(PtrV))
+		v := br.fc.load(st, p, types.Typ[types.Uint32]).(Scalar).T
+		return Scalar{not(eq(v, bvlit(0, 32)))}
+	}
+	natives["(*sync/atomic.Bool).Store"] = func(br *bodyRun, st *State, fn *ssa.Function, av []ssa.Value, args []Val, rt types.Type, x ssa.CallInstruction) Val {
+		p := boolField(args[0].(PtrV))
+		br.fc.store(st, p, types.Typ[types.Uint32], Scalar{ite(args[1].(Scalar).T, bvlit(1, 32), bvlit(0, 32))})
+		return nil
+	}
 	const yp = "github.com/dgraph-io/badger/v4/y."
 	natives[yp+"AssertTrue"] = func(br *bodyRun, st *State, fn *ssa.Function, av []ssa.Value, args []Val, rt types.Type, x ssa.CallInstruction) Val {
 		br.fc.oblige(st, args[0].(Scalar).T, br.prefix+br.fc.ordName("asserttrue", ""), "asserttrue", x.Pos(), "y.AssertTrue condition")
